@@ -12,6 +12,7 @@ import (
 	"verif/checks/c03"
 	"verif/checks/c04"
 	"verif/checks/c08"
+	"verif/checks/c16"
 	"verif/checks/sc"
 	"verif/gen"
 	"verif/internal/ev"
@@ -22,10 +23,10 @@ func init() {
 	ev.Register(&ev.Check{
 		ID:             "C13",
 		Level:          "exploration",
-		Rule:           "schemas: accepted AND rejected canonical cases (34 rule slots x 13 contexts incl. corruptions, C03 construct families, C08 rule sets of <= 2 rules on 10 node kinds) x the FULL product of spelling dimensions: line end {LF,CRLF,CR} x indentation {none,2 spaces,tab} x user comments {none,# at line ends,### blocks} x annotation form {inline, /* */ one line, /* */ three lines} x rule names {bare,quoted} x trailing comma {no,yes} (324 spellings + 54 with tabs / runs of blanks in front of annotations, comments and commas and at line ends; a # comment also follows inline annotations and notes) + notes added under the full product of line end x comments x annotation form (27 spellings) + all rule permutations (<= 3 rules): Check verdict, AST (comments blanked) and the verdict of every probe document must equal the canonical spelling's. documents: each probe x {compact, spaced, newline-heavy, CRLF} x all property permutations (<= 3 keys) x string spellings {plain, \\uXXXX for every char, \\/}: verdict equal under every schema. Entirely reference-free (metamorphic). Non-trivial = distinct (schema, spelling) or (schema, document spelling).",
+		Rule:           "schemas: accepted AND rejected canonical cases (34 rule slots x 13 contexts incl. corruptions, C03 construct families, C08 rule sets of <= 2 rules on 10 node kinds, the AST family of C16, every kind of rule value as first / last rule of a rule object) x the FULL product of spelling dimensions: line end {LF,CRLF,CR} x indentation {none,2 spaces,tab} x user comments {none,# at line ends,### blocks} x annotation form {inline, /* */ one line, /* */ three lines} x rule names {bare,quoted} x trailing comma {no,yes} (324 spellings + 54 with tabs / runs of blanks in front of annotations, comments and commas and at line ends; a # comment also follows inline annotations and notes) + notes added under the full product of line end x comments x annotation form (27 spellings) + all rule permutations (<= 3 rules): Check verdict, AST (comments blanked) and the verdict of every probe document must equal the canonical spelling's. documents: each probe x {compact, spaced, newline-heavy, CRLF} x all property permutations (<= 3 keys) x string spellings {plain, \\uXXXX for every char, \\/}: verdict equal under every schema. Entirely reference-free (metamorphic). Non-trivial = distinct (schema, spelling) or (schema, document spelling).",
 		Run:            run,
 		Replay:         replay,
-		QuickBudget:    150 * time.Second,
+		QuickBudget:    240 * time.Second,
 		ThoroughBudget: 14 * time.Minute,
 		Assumptions:    []string{"comments inside rule objects or between a key and its colon, and intra-line blanks inside empty brackets, are not in the statement's list and are not generated"},
 	})
@@ -193,6 +194,44 @@ func schemaCases(thorough bool, f func(string, sc.Case)) {
 	})
 	c08.ForEachSchema(2, func(cs sc.Case) { f("c08", cs) })
 	orSetFamily(func(cs sc.Case) { f("orsets", cs) })
+	c16.AstFamily(func(cs sc.Case) { f("ast", cs) })
+	lastRuleFamily(func(cs sc.Case) { f("lastrule", cs) })
+}
+
+// lastRuleFamily: every kind of rule VALUE (literal, string, inline list, list of
+// rule-sets, named enum reference, type reference) as the last and as the first
+// rule of a rule object, on a property that is the last / not the last of its object.
+func lastRuleFamily(f func(sc.Case)) {
+	lit := func(s string) gen.RuleItem { return gen.RuleItem{Lit: s} }
+	types := []sc.TypeDecl{{Name: "@A", Body: gen.Int("1")}, {Name: "@O", Body: gen.Obj(gen.P("z", gen.Int("1")))}, {Name: "@E", Enum: []string{"1", "2"}}}
+	type rv struct {
+		ex   *gen.Node
+		rule gen.Rule
+	}
+	vals := []rv{
+		{gen.Int("1"), gen.R("enum", "@E")},
+		{gen.Int("1"), gen.R("type", `"@A"`)},
+		{gen.Int("1"), gen.R("min", "1")},
+		{gen.Int("1"), gen.RL("enum", lit("1"), lit(`"x"`))},
+		{gen.Int("1"), gen.RL("or", gen.RuleItem{Set: []gen.Rule{gen.R("type", `"integer"`)}}, lit(`"@A"`))},
+		{gen.Str(`"ab"`), gen.R("regex", `"^a"`)},
+		{gen.Bool("true"), gen.R("const", "true")},
+		{gen.Obj(), gen.R("allOf", `"@O"`)},
+		{gen.Obj(), gen.R("additionalProperties", `"@A"`)},
+		{gen.Arr(gen.Int("1")), gen.R("maxItems", "2")},
+	}
+	for _, v := range vals {
+		for _, lastRule := range []bool{true, false} {
+			rules := []gen.Rule{gen.R("optional", "true"), v.rule}
+			if !lastRule {
+				rules = []gen.Rule{v.rule, gen.R("optional", "true")}
+			}
+			n := v.ex.Clone().With(rules...)
+			f(sc.Case{Root: gen.Obj(gen.P("c", n)), Types: types})
+			f(sc.Case{Root: gen.Obj(gen.P("c", n.Clone()), gen.P("d", gen.Int("2"))), Types: types})
+			f(sc.Case{Root: gen.Obj(gen.P("a", gen.Obj(gen.P("c", n.Clone())))), Types: types})
+		}
+	}
 }
 
 // orSetFamily: or-lists whose inline rule-sets use every rule name that is
